@@ -72,7 +72,7 @@ func init() {
 		Rule:   "cases = generated hands in which every bet/raise decision draws its amount from all classes (negative, zero, below/at the wager, undersized, minimum, above minimum, at/above the stack, +-2^62); classes:request:* is the histogram; non-trivial = hand with at least one sized request",
 		Stages: []stage{two(3000, 100000), hand(60000, 2000000)}}
 	plans["C13"] = plan{Level: "exploration", Assume: handAssume,
-		Rule:   "cases = forced-bet configurations driven Start..PayBlinds: exhaustive grid (n<=4, ante<=2, SB<=2, BB 1..3, dealer blind 0/2, bankrolls 1..5, all buttons, live/dead SB; plus the button-blind / ante-only layouts SB = BB = 0, dealer blind 0..3) + rapid G-CFG (one configuration in twenty a button-blind / ante-only game); non-trivial = a stack within 1 chip of a forced amount it owes",
+		Rule:   "cases = forced-bet configurations driven Start..PayBlinds: exhaustive grid (n<=4, ante<=2, SB<=2, BB 1..3, dealer blind 0/2, bankrolls 1..5, all buttons, live/dead SB; plus the button-blind / ante-only layouts SB = BB = 0, dealer blind 0..3; BB 0 with a bb seat: small blind and / or dealer blind only) + rapid G-CFG (one configuration in twenty a button-blind / ante-only game, one in twenty without a big blind); non-trivial = a stack within 1 chip of a forced amount it owes",
 		Stages: []stage{{Name: "grid", Harness: "hand", Test: "TestForcedGrid", Mode: "enum", Shards: 1}, {Name: "forced", Harness: "hand", Test: "TestForcedRapid", Mode: "rapid", Quick: 60000, Thorough: 3000000}, hand(6000, 150000)}}
 	plans["C14"] = plan{Level: "exploration", Assume: handAssume,
 		Rule:   "cases = generated hands (all endings), card accounting checked after every operation; ShuffleCards on drawn sub-decks; pairs of hands alive at the same time with decks taken from the engine's constructors and interleaved operations; non-trivial = hand that reached the flop; shuffle input of >= 2 cards; pair of hands with >= 4 switches between them",
@@ -122,9 +122,9 @@ func init() {
 		Rule:   "cases = tournament histories over a world model (settings 2<=min<=max<=10, a third at the default 9/6; AddPlayers batches 0..3*max, status steps, SyncState with eliminations on drawn tables, unknown-table calls, registrations after the deadline) with membership and counters checked after every call, + the settings grid; non-trivial = history with at least one sync that released, received or broke",
 		Stages: []stage{grid, mh(120000, 4000000)}}
 	plans["C19"] = plan{Level: "exploration", Assume: mttAssume,
-		Rule:   "cases = the complete settings grid (2<=min<=max<=10, 0..6*max registrants, all at once before the start / one by one / in batches of 3 / of max after it; 3 repetitions each because of map order) + tournament histories; capacity and start conditions are checked inside the callbacks; non-trivial = settings other than 9/6 with >= 2 tables opened",
+		Rule:   "cases = the complete settings grid (2<=min<=max<=10, 0..6*max registrants, all at once before the start / one by one / in batches of 3 / of max after it; 3 repetitions each because of map order) + tournament histories; capacity and start conditions are checked inside the callbacks, occupancy plus outstanding demand (Required) against the capacity after every call; non-trivial = settings other than 9/6 with >= 2 tables opened",
 		Stages: []stage{grid, mh(120000, 4000000)}}
 	plans["C20"] = plan{Level: "exploration", Assume: mttAssume,
-		Rule:   "cases = from the end state of every generated history (and every grid point) sweeps of SyncState(t,0) over all tables in a drawn order, instructions carried out, until a sweep asks for nothing; bound max(20, 2*tables+10) sweeps; non-trivial = settling run with at least one move; classes sweeps-to-settle:N = distribution of the number of sweeps needed",
+		Rule:   "cases = from the end state of every generated history (and every grid point) sweeps of SyncState(t,0) over all tables in a drawn order, instructions carried out, until a sweep asks for nothing; bound max(20, 2*tables+10) sweeps, and never five sweeps in a row that move players without changing how full any table or the queue is; histories contain stretches of 1..40 hands without a bust-out; non-trivial = settling run with at least one move; classes sweeps-to-settle:N = distribution of the number of sweeps needed",
 		Stages: []stage{grid, mh(120000, 4000000)}}
 }
